@@ -91,9 +91,14 @@ def run_discovery(col):
     finish_info(col, it)
 
 
-def _param_value(name, default, tag=""):
+# models whose list-valued parameters are *terms of a series* (any number of them, all lists of one length): evaluated with two terms, so that a
+# term picking up another term's parameter is visible (the attached defaults have one term)
+TERM_MODELS = ("ogden", "storakers")
+
+
+def _param_value(name, default, tag="", terms=False):
     if isinstance(default, (list, tuple)):
-        return [sym("%s%d" % (name, i), positive=True) for i in range(len(default))]
+        return [sym("%s%d" % (name, i), positive=True) for i in range(max(2, len(default)) if terms else len(default))]
     return sym(name, positive=True)
 
 
@@ -154,7 +159,7 @@ def build_args(node, world, kwargs_attr):
             default = (kwargs_attr or {}).get(pn, 0)
             if pn == "p" and fn.name.startswith("morph"):
                 default = [0] * 8
-            args[pn] = _param_value("par_" + pn, default)
+            args[pn] = _param_value("par_" + pn, default, terms=fn.name in TERM_MODELS)
     return args
 
 
@@ -184,6 +189,17 @@ def run_pair(col, jmod, tmod, name):
             kw = it.getattr(ft, "kwargs")
         except InterpRaise:
             kw = {}
+    # the attached default parameters (used for every parameter the user leaves out, `Hyperelastic(model, mu=1)`) are part of the model
+    try:
+        it.module(jmod.rsplit(".", 1)[0])
+        kwj = it.getattr(fj, "kwargs")
+    except InterpRaise:
+        kwj = None
+    if kw or kwj:
+        def norm(d):
+            return {k: [str(P(x)) for x in flatten(v)] for k, v in (d or {}).items()}
+        col.add("C12.O1", "%s attached default parameters" % name, "both backends attach the same default parameter values to the model function (they complete partial parameter sets)",
+                kwj is not None and norm(kw) == norm(kwj), "%s.kwargs = %s but %s.kwargs = %s" % (jmod.replace("felupe.constitution.", ""), kwj, tmod.replace("felupe.constitution.", ""), kw))
     nj, nt = _defnode(it, jmod, name), _defnode(it, tmod, name)
     params = [a.arg for a in nt.args.args]
     uses_eig = any(isinstance(n, ast.Name) and n.id in ("eigvalsh", "eigh", "eigvalsh2") for f in (nt, nj) for n in ast.walk(f))
@@ -418,6 +434,25 @@ def run_plane(col):
     Ps = it.call_method(ps, "gradient", [[F2, sv0]])[0]
     bad = [(i, j) for i in range(2) for j in range(2) if not is_zero(Ps[i, j, 0, 0] - ring.subs(P3[i, j, 0, 0], {e33: sol}))]
     col.add("C12.O4", "LinearElasticPlaneStress stress vs 3D", "in-plane stress == 3D stress with eps_33 solved from sigma_33 = 0", not bad, str(bad))
+    # the plane laws also hand out their 3D state: strain(x) and stress(x) (3x3).  They describe the same state as the 3D law: the 3D
+    # law evaluated at the returned strain tensor gives the returned stress tensor (plane strain: eps_33 = 0, plane stress: sigma_33 = 0)
+    for nm, um in (("LinearElasticPlaneStrain", pe), ("LinearElasticPlaneStress", ps)):
+        def chk_state(nm=nm, um=um):
+            e3 = npmodel.to_obj(np.asarray(it.call_method(um, "strain", [[F2, sv0]])[0]))
+            s3 = npmodel.to_obj(np.asarray(it.call_method(um, "stress", [[F2, sv0]])[0]))
+            if e3.shape[:2] != (3, 3) or s3.shape[:2] != (3, 3):
+                return False, "%s%s: strain %s, stress %s are not 3x3" % (base, nm, e3.shape, s3.shape)
+            Fe = np.empty((3, 3, 1, 1), dtype=object)
+            for i in range(3):
+                for j in range(3):
+                    Fe[i, j, 0, 0] = P(e3[i, j].reshape(-1)[0]) + (ONE if i == j else ZERO)
+            S3 = it.call_method(le, "gradient", [[Fe, sv0]])[0]
+            bad = [(i, j) for i in range(3) for j in range(3) if not is_zero(P(s3[i, j].reshape(-1)[0]) - P(S3[i, j, 0, 0]))]
+            sym_e = [(i, j) for i in range(3) for j in range(i) if not is_zero(P(e3[i, j].reshape(-1)[0]) - P(e3[j, i].reshape(-1)[0]))]
+            at_rest = {v: (ONE if k in (0, 3) else ZERO) for k, v in enumerate(F2.reshape(-1))}
+            rest = [(i, j) for i in range(3) for j in range(3) if not is_zero(ring.subs(P(e3[i, j].reshape(-1)[0]), at_rest))]
+            return not bad and not sym_e and not rest, "%s%s.strain / .stress: 3D law at strain(x) differs from stress(x) in entries %s; strain not symmetric %s; strain at F = 1 non-zero %s" % (base, nm, bad, sym_e, rest)
+        col.check("C12.O4", "%s strain(x) / stress(x) vs 3D" % nm, "the 3D linear-elastic law evaluated at the 3x3 strain tensor the plane law reports equals the 3x3 stress tensor it reports; the reported strain is a symmetric tensor that vanishes at F = 1", chk_state)
     finish_info(col, it)
 
 
